@@ -567,6 +567,39 @@ fn gen_sample(r: &mut Rng, l: &mut TrackLaws, tag: u32, hostile: bool) -> Sample
 }
 
 /// Generate one muxing history. `kinds` restricts the media kinds (swarm knob).
+/// Insert an add_track call that the muxer rejects (zero timescale, parameter sets that are too
+/// short or too long) in front of an accepted one: it must leave no trace - the tracks added
+/// after it keep the ids 1..n in the order added.
+pub fn inject_rejected_add_track(sc: &mut MuxScenario, r: &mut Rng) {
+    let n_add = sc.track_count();
+    if n_add > 0 {
+        let at = sc.ops.iter().position(|op| matches!(op, Op::AddTrack(_))).unwrap_or(0) + if r.chance(1, 2) { 0 } else { 1 };
+        if let Some(Op::AddTrack(t)) = sc.ops.iter().find(|op| matches!(op, Op::AddTrack(_))) {
+            let mut bad = t.clone();
+            match r.below(3) {
+                0 => bad.timescale = 0,
+                1 => {
+                    bad.kind = Kind::Avc;
+                    bad.sps = vec![0x67; r.below(4) as usize];
+                }
+                _ => {
+                    bad.kind = Kind::Avc;
+                    bad.pps = vec![0x68; 70_000];
+                }
+            }
+            let at = at.min(sc.ops.len() - 1);
+            // insert only in front of tracks (ids written to must stay those of accepted tracks)
+            if matches!(sc.ops.get(at), Some(Op::AddTrack(_))) || at == 0 {
+                sc.ops.insert(at, Op::AddTrack(bad));
+                // a fault aimed at a stream call of write_end follows that call
+                if let Some((api, nth)) = sc.fault_api {
+                    sc.fault_api = Some((api + 1, nth));
+                }
+            }
+        }
+    }
+}
+
 /// What a caller does when write_end fails because the sink failed: perhaps a few more samples,
 /// then write_end again. Only executed if the first write_end did fail (the history ends with
 /// the first write_end that succeeds).
